@@ -182,24 +182,35 @@ class Engine(CoreMixin, ExprMixin, StmtMixin, CallMixin, BuiltinMixin):
             if len(node.args) == 4:
                 lo = self.ev(node.args[1]).z
                 hi = self.ev(node.args[2]).z
-                x = z3.Int(fresh_name('q_' + var))
+                self.qdepth = getattr(self, 'qdepth', 0) + 1
+                x = z3.Int('q_%s_%d' % (var, self.qdepth))
                 self.frame.locals[var] = mk_int(x)
                 try:
                     body = self.ev_bool(node.args[3])
                 finally:
                     self.frame.locals.pop(var, None)
+                    self.qdepth -= 1
                 rng = z3.And(x >= lo, x < hi)
                 if name == 'forall':
-                    return mk_bool(z3.ForAll([x], z3.Implies(rng, body)))
+                    from .core import auto_patterns
+                    pats = auto_patterns(x, body)
+                    return mk_bool(z3.ForAll([x], z3.Implies(rng, body), patterns=pats) if pats
+                                   else z3.ForAll([x], z3.Implies(rng, body)))
                 return mk_bool(z3.Exists([x], z3.And(rng, body)))
             t = parse_type(node.args[1].value)
-            x = z3.Const(fresh_name('q_' + var), t.sort())
+            self.qdepth = getattr(self, 'qdepth', 0) + 1
+            x = z3.Const('q_%s_%d' % (var, self.qdepth), t.sort())
             self.frame.locals[var] = V(t, x)
             try:
                 body = self.ev_bool(node.args[2])
             finally:
                 self.frame.locals.pop(var, None)
-            return mk_bool(z3.ForAll([x], body) if name == 'forall' else z3.Exists([x], body))
+                self.qdepth -= 1
+            if name == 'forall':
+                from .core import auto_patterns
+                pats = auto_patterns(x, body)
+                return mk_bool(z3.ForAll([x], body, patterns=pats) if pats else z3.ForAll([x], body))
+            return mk_bool(z3.Exists([x], body))
         if name in self.spec.specfuncs:
             params, body = self.spec.specfuncs[name]
             args = [self.ev(a) for a in node.args]
@@ -424,19 +435,32 @@ class Engine(CoreMixin, ExprMixin, StmtMixin, CallMixin, BuiltinMixin):
             res.stmts = sum(1 for n in ast.walk(fdef) if isinstance(n, ast.stmt)) - 1
             self.cur_key = fs.key
             self.cur_fspec = fs
-            stack = [[]]
-            while stack:
-                prefix = stack.pop()
-                if self.paths_run >= self.max_paths:
-                    raise Unsupported('path budget exceeded (%d)' % self.max_paths)
-                self.begin_path(prefix)
-                try:
-                    self.run_path(fs, case, module, ci, fdef)
-                except PathEnd:
-                    pass
-                for i in range(len(prefix), len(self.decisions)):
-                    if self.dec_both[i]:
-                        stack.append(self.decisions[:i] + [not self.decisions[i]])
+            # Quantified class-invariant clauses are assumed only when the function touches
+            # what they talk about (or the contract asks for them): an untouched clause is
+            # re-established by identity and only slows every query down.  Found by iteration.
+            self.quant_assumed = set(fs.d.get('inv_use', []))
+            for _round in range(4):
+                self.inv_touched = set()
+                self.obs, self.ob_order = {}, []
+                stack = [[]]
+                while stack:
+                    prefix = stack.pop()
+                    if self.paths_run >= self.max_paths:
+                        raise Unsupported('path budget exceeded (%d)' % self.max_paths)
+                    self.begin_path(prefix)
+                    try:
+                        self.run_path(fs, case, module, ci, fdef)
+                    except PathEnd:
+                        pass
+                    for i in range(len(prefix), len(self.decisions)):
+                        if self.dec_both[i]:
+                            stack.append(self.decisions[:i] + [not self.decisions[i]])
+                    if self.inv_touched - self.quant_assumed:
+                        break
+                if not (self.inv_touched - self.quant_assumed):
+                    break
+                self.quant_assumed |= self.inv_touched
+            res.notes.append('quantified invariants assumed: %s' % sorted(self.quant_assumed))
         except Unsupported as err:
             res.unsupported = '%s (line %s)' % (err, getattr(self, 'cur_line', None))
         except BindError as err:
@@ -492,8 +516,14 @@ class Engine(CoreMixin, ExprMixin, StmtMixin, CallMixin, BuiltinMixin):
             self.assume(truthy(self.spec_eval(ast.parse(src.strip(), mode='eval').body)))
         inv_schema = fs.inv_schema or (self.spec.schema_of_type(ptypes['self']) if 'self' in ptypes and not isinstance(ptypes['self'], str) else None)
         invs = self.spec.all_invariants(inv_schema) if (fs.handler and inv_schema) else []
+        self.inv_entry = {}
         for c in invs:
-            self.assume(truthy(self.spec_eval(c.node)))
+            zc = truthy(self.spec_eval(c.node))
+            self.inv_entry[c.label] = zc
+            from .core import has_quantifier
+            if has_quantifier(zc) and c.label not in self.quant_assumed:
+                continue
+            self.assume(zc)
         self.cover(self.unit_id + '/requires')
         if self.covers.get(self.unit_id + '/requires') == 'unreachable':
             raise PathEnd()
@@ -564,8 +594,22 @@ class Engine(CoreMixin, ExprMixin, StmtMixin, CallMixin, BuiltinMixin):
             self.ob('ensures', c.label, truthy(self.spec_eval(c.node)), props=c.props, aux=c.aux or not c.props)
         if not fs.no_inv_ensures:
             for c in invs:
-                self.ob('invariant', c.label, truthy(self.spec_eval(c.node)), props=c.props, aux=not c.props)
+                self.ob_inv('invariant', c.label, c, c.label)
         self.check_frame(fs, fs.modifies)
+
+    def ob_inv(self, kind, label, c, key):
+        '''An invariant clause at exit.  If the clause reads nothing that was
+        written, its formula is literally the one assumed at entry.'''
+        zc = truthy(self.spec_eval(c.node))
+        ze = self.inv_entry.get(key)
+        if ze is not None and zc.eq(ze):
+            zc = z3.BoolVal(True)
+        else:
+            from .core import has_quantifier
+            if ze is not None and has_quantifier(ze) and key not in self.quant_assumed:
+                self.inv_touched.add(key)
+                return
+        self.ob(kind, label, zc, props=c.props, aux=not c.props)
 
     def old_eval(self, node):
         saved_st, saved_loc = self.st, self.frame.locals
@@ -593,13 +637,18 @@ class Engine(CoreMixin, ExprMixin, StmtMixin, CallMixin, BuiltinMixin):
         self.cover('%s/raises_%s' % (self.unit_id, match.exc))
         if match.when is not None:
             self.ob('raises_when', match.exc, truthy(self.old_eval(match.when)), props=fs.props)
+        for an, anode in match.attrs.items():
+            have = exc.attrs.get(an)
+            want = self.old_eval(anode)
+            from .sym import eq as _eq
+            self.ob('raises_attr', '%s.%s' % (match.exc, an),
+                    _eq(have, want) if have is not None else z3.BoolVal(False), props=fs.props)
         for c in match.ensures:
             self.ob('raises_ensures', '%s.%s' % (match.exc, c.label), truthy(self.spec_eval(c.node)), props=c.props,
                     aux=c.aux or not c.props)
         if not fs.no_inv_ensures:
             for c in invs:
-                self.ob('invariant_on_raise', '%s.%s' % (match.exc, c.label), truthy(self.spec_eval(c.node)), props=c.props,
-                        aux=not c.props)
+                self.ob_inv('invariant_on_raise', '%s.%s' % (match.exc, c.label), c, c.label)
         self.check_frame(fs, match.modifies if match.modifies is not None else fs.modifies)
 
     def check_frame(self, fs, mods):
@@ -707,8 +756,9 @@ def _sb_eqv(eng, a, b):
 
 
 def _sb_no_dup(eng, s):
-    i, j = z3.Int(fresh_name('i')), z3.Int(fresh_name('j'))
-    return mk_bool(z3.ForAll([i, j], z3.Implies(z3.And(0 <= i, i < j, j < z3.Length(s.z)), s.z[i] != s.z[j])))
+    i, j = z3.Int('nd_i'), z3.Int('nd_j')
+    return mk_bool(z3.ForAll([i, j], z3.Implies(z3.And(0 <= i, i < j, j < z3.Length(s.z)), s.z[i] != s.z[j]),
+                             patterns=[z3.MultiPattern(s.z[i], s.z[j])]))
 
 
 def _sb_contains(eng, s, x):
